@@ -34,10 +34,14 @@ def _sym(name):
 def make_params(mask):
     """mask = (bias[3] in {0,1,2: none / bias / bias+walk}, noise[3] bool, sm[9] bool) -> symbolic parameter arrays"""
     b, nz, sm = mask
-    bias_sd = [RSym(_sym("sb%d" % a)) if b[a] else 0 for a in range(3)]
-    walk = [RSym(_sym("w%d" % a)) if b[a] == 2 else 0 for a in range(3)]
-    noise = [RSym(_sym("nz%d" % a)) if nz[a] else 0 for a in range(3)]
-    scale = [[RSym(_sym("ss%d%d" % (i, j))) if sm[3 * i + j] else 0 for j in range(3)] for i in range(3)]
+
+    def off(k):
+        """a DISABLED entry: documented as "non-positive"; written 0 at even positions and as a negative value at odd ones"""
+        return 0 if k % 2 == 0 else RSym(-_sym("off%d" % k))
+    bias_sd = [RSym(_sym("sb%d" % a)) if b[a] else off(a) for a in range(3)]
+    walk = [RSym(_sym("w%d" % a)) if b[a] == 2 else off(3 + a + 1) for a in range(3)]
+    noise = [RSym(_sym("nz%d" % a)) if nz[a] else off(6 + a) for a in range(3)]
+    scale = [[RSym(_sym("ss%d%d" % (i, j))) if sm[3 * i + j] else off(10 + 3 * i + j) for j in range(3)] for i in range(3)]
     return bias_sd, noise, walk, scale
 
 
@@ -204,6 +208,27 @@ def _worker(masks):
         if not judged:
             bad.append((mask, "engine", "no path of the mask had a witness", None))
     return n_ob, bad
+
+
+def layout_subset(ctx, py, prefix):
+    """The layout contract of EstimationModel (which states / noises exist for which parameters, in which order) for a small
+    set of masks, under another property's name: the joint process model of the filters (C08, C11) is assembled from it."""
+    t0 = time.time()
+    sm0 = (0,) * 9
+    masks = [((0, 0, 0), (0, 0, 0), sm0), ((1, 0, 2), (0, 1, 0), sm0), ((2, 2, 2), (1, 1, 1), (1, 0, 0, 0, 1, 0, 0, 0, 1)),
+             ((0, 1, 0), (1, 0, 1), (0, 1, 0, 1, 0, 1, 0, 1, 0)), ((1, 1, 1), (0, 0, 0), (1,) * 9), ((0, 0, 2), (1, 1, 0), (0, 0, 1, 0, 0, 0, 1, 0, 0))]
+    n_ob, bad = _worker(masks)
+    by_clause = {}
+    for mask, clause, detail, wit in bad:
+        by_clause.setdefault(clause, []).append((mask, detail, wit))
+    for mask, detail, wit in by_clause.get("engine", [])[:2]:
+        ctx.add(Ob("%s.engine.sensor_model_layout" % prefix, "guard", "error", "python", 0.0, "mask %s: %s" % (mask, detail)))
+    for cl in ("layout.states", "layout.P", "layout.H", "layout.G", "layout.J", "layout.F", "layout.q_v", "layout.scale_misal_flag"):
+        fails = by_clause.get(cl, [])
+        ctx.ob("%s.sensor_model.%s" % (prefix, cl), "a", not fails, "mask-enumeration(symbolic values)", (time.time() - t0) / 8,
+               "%d masks with symbolic parameter values, disabled entries written as 0 and as negative values" % len(masks) if not fails
+               else "fails for mask %s: %s" % (fails[0][0], fails[0][1]),
+               cex=None if not fails else dict(mask=fails[0][0], detail=fails[0][1]), native=None if not fails else _native_mask(py, fails[0][0], fails[0][2]))
 
 
 def all_masks(tier):
